@@ -192,6 +192,38 @@ class Check:
         self.fpcheck = out
         return out
 
+    def build_race(self):
+        """The same harness built with the Go race detector (used for unscheduled parallel runs)."""
+        if getattr(self, "fpcheck_race", None):
+            return self.fpcheck_race
+        env = dict(os.environ, **GOENV)
+        shutil.copy(os.path.join(REPO, "go.sum"), os.path.join(HARNESS, "go.sum"))
+        out = os.path.join(self.tmp, "fpcheck-race")
+        p = subprocess.run(["go", "build", "-race", "-tags", "verif", "-o", out, "./cmd/fpcheck"], cwd=HARNESS,
+                           env=env, capture_output=True, text=True)
+        if p.returncode != 0:
+            sys.stderr.write(p.stdout + p.stderr)
+            raise Infra("harness does not build with -race")
+        self.fpcheck_race = out
+        return out
+
+    def race_run(self, args, timeout=600):
+        """Run the race-instrumented harness; returns the race / fatal-error reports that name csgura/fp code."""
+        exe = self.build_race()
+        env = dict(os.environ, GORACE="halt_on_error=1 exitcode=66", **GOENV)
+        p = subprocess.run(["timeout", str(timeout), exe] + args, env=env, capture_output=True, text=True)
+        text = p.stderr
+        if p.returncode == 0:
+            return None
+        if p.returncode == 124:
+            raise Infra("race run timed out")
+        if "DATA RACE" in text or "fatal error: concurrent map" in text:
+            frames = re.findall(r"(github\.com/csgura/fp[^\s(]*)\(", text)
+            return dict(kind="data-race" if "DATA RACE" in text else "fatal-concurrent-map",
+                        frames=frames[:6], report=text[:3000])
+        sys.stderr.write(text[-3000:])
+        raise Infra("race run failed with exit %d" % p.returncode)
+
     def harness(self, cmd, cases, name=None, timeout=1800, extra=None):
         """Run  fpcheck <cmd> cases.json out.ndjson ; returns (summary, out_path)."""
         self.build()
